@@ -39,6 +39,9 @@ InitM == [ lst   |-> EmptyFn,          \* listing: line number -> normalised sta
            cont  |-> NoCont,           \* where CONT resumes; NoCont = can't continue
            contx |-> FALSE,            \* TRUE: continuation state not fixed by the manual
            ctlx  |-> FALSE,            \* TRUE: frames not fixed by the manual (after an error)
+           stale |-> FALSE,            \* TRUE: an edit discarded frames; how the interpreter
+                                       \* disposes of them is its own business until the next
+                                       \* reset -- only that they can never be resumed is specified
            inp   |-> NoCont,           \* the INPUT statement waiting for a reply
            resp  |-> <<>>,
            why   |-> "" ]
@@ -73,7 +76,7 @@ Fail(m, p, v) ==
   IF IsUnk(v) THEN OutOfModel(m, "value")
   ELSE LET m1 == Item(FreshLine(m), [k |-> "err", errs |-> {[code |-> v.n, ln |-> ErrLine(v, p)]}])
            m2 == IF InProgram(p) THEN [m1 EXCEPT !.contx = TRUE, !.cont = NoCont, !.ctlx = TRUE]
-                 ELSE [m1 EXCEPT !.ctl = <<>>, !.cont = NoCont, !.contx = FALSE, !.ctlx = FALSE]
+                 ELSE [m1 EXCEPT !.ctl = <<>>, !.cont = NoCont, !.contx = FALSE, !.ctlx = FALSE, !.stale = FALSE]
        IN  GoReady(m2)
 
 \* ---- memory pools
@@ -114,7 +117,8 @@ WithListing(m, lst) ==
 DataIndexOfLine(m, ln) == CountData(FlatProg(m.lst), 1, ln)
 
 \* an edit cancels the continuation and everything that points into the old program
-Edited(m, lst) == [WithListing(m, lst) EXCEPT !.cont = NoCont, !.contx = FALSE, !.ctl = <<>>, !.ctlx = FALSE]
+Edited(m, lst) == [WithListing(m, lst) EXCEPT !.cont = NoCont, !.contx = FALSE, !.ctl = <<>>, !.ctlx = FALSE,
+                                              !.stale = (m.stale \/ m.ctl # <<>> \/ m.ctlx)]
 
 \* ---- control transfer
 \* a jump into the program is refused when the program has compile-time errors
@@ -143,7 +147,8 @@ NothingLeft(m, p) ==
 
 \* CLEAR (also the first half of RUN)
 Cleared(m) == [m EXCEPT !.vars = EmptyFn, !.dims = EmptyFn, !.deft = DeftInit, !.fns = EmptyFn,
-                        !.ctl = <<>>, !.dptr = 0, !.cont = NoCont, !.contx = FALSE, !.ctlx = FALSE]
+                        !.ctl = <<>>, !.dptr = 0, !.cont = NoCont, !.contx = FALSE, !.ctlx = FALSE,
+                        !.stale = FALSE]
 
 \* ---- FOR / NEXT / RETURN frame handling
 RECURSIVE PopToGosub(_)
@@ -305,7 +310,7 @@ Exec(m, p, s) ==
     [] s.k = "stop" ->
          LET m1 == Item(FreshLine(m), [k |-> "err", errs |-> {[code |-> EBreak, ln |-> IF InProgram(p) THEN p.ln ELSE -1]}]) IN
          IF InProgram(p) THEN GoReady([m1 EXCEPT !.cont = Adv(p), !.contx = NothingLeft(m, Adv(p))])
-         ELSE GoReady([m1 EXCEPT !.cont = NoCont, !.contx = FALSE, !.ctl = <<>>])
+         ELSE GoReady([m1 EXCEPT !.cont = NoCont, !.contx = FALSE, !.ctl = <<>>, !.stale = FALSE])
     [] s.k = "read" ->
          IF m.dptr >= Len(m.data) THEN Fail(m, p, Err(EOutOfData))
          ELSE LET w == Store([m EXCEPT !.dptr = @ + 1], s.v, m.data[m.dptr + 1]) IN
@@ -421,13 +426,22 @@ Step(m) ==
                  ELSE IF ~InProgram(p) THEN [m EXCEPT !.ltr = -1] ELSE m
        IN  Exec([m1 EXCEPT !.pc = p], p, StmtAt(CodeOf(m1, p.ln), p.path))
 
+\* big step: run until the machine waits for the user (or the fuel is used up: the run is
+\* then outside the bounded model)
+RECURSIVE RunToWait(_, _)
+RunToWait(m, fuel) ==
+  IF m.mode # "run" THEN m
+  ELSE IF fuel = 0 THEN OutOfModel(m, "fuel")
+  ELSE RunToWait(Step(m), fuel - 1)
+
 \* ---- user actions ----------------------------------------------------------
 \* a numbered line: insert / replace; an empty one deletes (no change if absent)
 EnterLine(m, n, stmts) ==
   LET m0 == [m EXCEPT !.resp = <<>>] IN
   IF stmts = <<>> THEN
     (IF n \in DOMAIN m.lst THEN Edited(m0, [x \in DOMAIN m.lst \ {n} |-> m.lst[x]])
-     ELSE [m0 EXCEPT !.cont = NoCont, !.contx = FALSE, !.ctl = <<>>, !.ctlx = FALSE])
+     ELSE [m0 EXCEPT !.cont = NoCont, !.contx = FALSE, !.ctl = <<>>, !.ctlx = FALSE,
+                     !.stale = (m.stale \/ m.ctl # <<>> \/ m.ctlx)])
   ELSE Edited(m0, [x \in DOMAIN m.lst \cup {n} |-> IF x = n THEN Norm(stmts) ELSE m.lst[x]])
 
 \* a direct line: analysed against the program's line numbers; with compile-time errors
@@ -464,7 +478,19 @@ Interrupt(m) ==
       m1 == Item(FreshLine(m), [k |-> "err", errs |-> {[code |-> EBreak, ln |-> LineUnspec]}]) IN
   IF m.mode = "input" THEN
      (IF InProgram(m.inp) THEN GoReady([m1 EXCEPT !.cont = m.inp, !.contx = FALSE, !.inp = NoCont])
-      ELSE GoReady([m1 EXCEPT !.cont = NoCont, !.contx = FALSE, !.ctl = <<>>, !.inp = NoCont]))
+      ELSE GoReady([m1 EXCEPT !.cont = NoCont, !.contx = FALSE, !.ctl = <<>>, !.inp = NoCont, !.stale = FALSE]))
   ELSE IF inprog THEN GoReady([m1 EXCEPT !.cont = p, !.contx = FALSE])
-  ELSE GoReady([m1 EXCEPT !.cont = NoCont, !.contx = FALSE, !.ctl = <<>>])
+  ELSE GoReady([m1 EXCEPT !.cont = NoCont, !.contx = FALSE, !.ctl = <<>>, !.stale = FALSE])
+
+\* deliver one user action
+Apply(mm, c) ==
+  CASE c.k = "line"   -> EnterLine(mm, c.n, c.stmts)
+    [] c.k = "direct" -> EnterDirect(mm, c.stmts)
+    [] c.k = "reply"  -> Reply(mm, c.s)
+    [] c.k = "int"    -> Interrupt([mm EXCEPT !.resp = <<>>])
+\* ... and run until the machine waits again
+Do(mm, c, fuel) == RunToWait(Apply(mm, c), fuel)
+
+\* what RUN / CLEAR / NEW must reset (C12)
+ProgState(mm) == <<mm.vars, mm.dims, mm.deft, mm.fns, mm.ctl, mm.dptr, mm.cont>>
 =============================================================================
